@@ -179,6 +179,10 @@ contract(E + 'analyze_scalar', props=['C15', 'C02', 'C05'], max_paths=2,
          labels={0: 'analysis-of-this-text', 1: 'empty-is-single-line', 2: 'non-double-quoted-styles-only-for-printable-text', 3: 'plain-only-without-line-breaks', 4: 'multiline-flag-sound',
                  5: 'plain-only-without-line-breaks-as-predicate', 6: 'flags-are-booleans'},
          axioms=["forall(j, 0, len(scalar), scalar[j] not in %s) ==> nobreaks(scalar)" % BRK],
+         # lemmas placed right after the two classification statements of the loop body (the state is still simple there)
+         cuts=[("if not (ch == '\\n' or ' ' <= ch <= '~'):", ["not special_characters ==> okc(self, ch)", "ch == scalar[index] and 0 <= index and index < len(scalar)",
+                                                               "not special_characters ==> forall(j, 0, index, okc(self, scalar[j]))"]),
+               ("if ch in '\\n\\x85\\u2028\\u2029':\n    line_breaks = True", ["not line_breaks ==> ch not in %s" % BRK, "not line_breaks ==> forall(j, 0, index, scalar[j] not in %s)" % BRK])],
          invariants={0: _AS_INV}, modifies=[], raises=[])
 
 define('an_typed', ['a'], "typeis(a.allow_flow_plain, 'bool') and typeis(a.allow_block_plain, 'bool') and typeis(a.scalar, 'str')")
@@ -201,7 +205,7 @@ contract(E + 'process_anchor', props=['C05'],
     labels={0: 'inv_pos', 1: 'prepared-anchor-consumed', 2: 'no-anchor-no-output', 3: 'anchor-written-once'},
     modifies=['self.prepared_anchor', 'self.whitespace', 'self.indention', 'self.column', 'self.open_ended'] + OUT, raises=[EERR] + ENCERR, raises_any=True)
 
-contract(E + 'choose_scalar_style', props=['C02', 'C08', 'C05'],
+contract(E + 'choose_scalar_style', props=['C02', 'C08', 'C05'], max_paths=2000,
     requires=["typeis(self.event, 'obj:yaml.events.ScalarEvent')", "ev_ok(self.event)", "analysis_ok(self)"],
     result='str',
     ensures=[
@@ -219,7 +223,7 @@ contract(E + 'choose_scalar_style', props=['C02', 'C08', 'C05'],
             4: 'block-style-permission', 5: 'single-quoted-permission', 6: 'analysis-available', 7: 'analysis_ok'},
     modifies=['self.analysis'], raises=[])
 
-contract(E + 'process_tag', props=['C05', 'C02', 'C08'], max_paths=24,
+contract(E + 'process_tag', props=['C05', 'C02', 'C08'], max_paths=2000,
     requires=["inv_pos(self)", "typeis(self.event, 'obj:yaml.events.ScalarEvent') or typeis(self.event, 'obj:yaml.events.CollectionStartEvent')", "ev_ok(self.event)",
               "inv_prefixes(self)", "inv_prep(self)", "analysis_ok(self)", "style_ok(self)"],
     ensures=["inv_pos(self)",
